@@ -6,26 +6,36 @@ Local Open Scope N_scope.
 
 (* every batch the limiter chain admits (C04_batching: all of them satisfy within_limits) is accepted
    by the kernel model, whatever the number and sizes of the arguments, the environment and the
-   stack limit - given that sysconf(ARG_MAX) is the kernel's own limit (validated by the prober) *)
-Theorem C06_accepted : forall c b rl env fn,
+   stack limit - given that sysconf(ARG_MAX) is the kernel's own limit (validated by the prober), that the command's file name
+   is within PATH_MAX and, when it is a "#!" script, that what the kernel pushes for it ([sb]: the name once more and the
+   interpreter line) is within PATH_MAX + 256 *)
+Theorem C06_accepted : forall c b rl env fn sb,
   within_limits c b -> c_sys c = sys_budget (kernel_limit rl) env -> c_init c <> [] ->
   Forall (fun len => len + 1 <= MAX_ARG_STRLEN) (env_strings env) ->
   Forall (fun len => len + 1 <= MAX_ARG_STRLEN) (c_init c) ->
-  fn + 1 <= 4096 + 2048 ->
-  kernel_accepts rl {| argv := c_init c ++ map alen b; envp := env_strings env; fname := fn |}.
+  fn + 1 <= 4096 -> sb <= 4096 + 256 ->
+  kernel_accepts rl {| argv := c_init c ++ map alen b; envp := env_strings env; fname := fn; shebang := sb |}.
 Proof. exact xargs_batch_accepted. Qed.
 Print Assumptions C06_accepted.
 
 (* with -I the line is put into the initial arguments after the limiters were asked; the command line that results is put to
    a fresh system limiter before it is run: one that passes is accepted by the kernel, one that does not ends the run with
    "Argument too large" and status 1 without reaching exec *)
-Theorem C06_substituted_accepted : forall c lens rl env fn,
+Theorem C06_substituted_accepted : forall c lens rl env fn sb,
   fits_system c lens = true -> c_sys c = sys_budget (kernel_limit rl) env -> lens <> [] ->
   Forall (fun len => len + 1 <= MAX_ARG_STRLEN) (env_strings env) ->
-  fn + 1 <= 4096 + 2048 ->
-  kernel_accepts rl {| argv := lens; envp := env_strings env; fname := fn |}.
+  fn + 1 <= 4096 -> sb <= 4096 + 256 ->
+  kernel_accepts rl {| argv := lens; envp := env_strings env; fname := fn; shebang := sb |}.
 Proof. exact substituted_accepted. Qed.
 Print Assumptions C06_substituted_accepted.
+
+(* -s, with -I, is a limit on the same substituted command line (not on the template plus the line) *)
+Theorem C06_substituted_meets_s : forall c lens s, fits_system c lens = true -> c_s c = Some s ->
+  fold_right (fun l t => l + 1 + t) 0 lens <= s.
+Proof.
+  intros c lens s H Hs. unfold fits_system in H. rewrite Hs in H. apply andb_prop in H as [H _]. now apply N.leb_le in H.
+Qed.
+Print Assumptions C06_substituted_meets_s.
 
 Theorem C06_substituted_too_large : forall c st a b, c_replace c = true ->
   fits_system c (c_subst c (alen a)) = false -> exec c st (a :: b) = inr (1, log st).
